@@ -3,9 +3,10 @@
 CHECKS = {}
 
 
-def add(id, test, rule, quick, thorough, floors=None, race=False, level="exploration", assumptions=None, coverage_extra=None):
+def add(id, test, rule, quick, thorough, floors=None, race=False, level="exploration", assumptions=None, coverage_extra=None,
+        note_current=False):
     CHECKS[id] = {"id": id, "test": test, "rule": rule, "quick": quick, "thorough": thorough, "floors": floors or {},
-                  "race": race, "level": level, "assumptions": assumptions or [], "coverage_extra": coverage_extra or {}}
+                  "race": race, "note_current": note_current, "level": level, "assumptions": assumptions or [], "coverage_extra": coverage_extra or {}}
 
 
 add("C19", "TestC19",
@@ -236,4 +237,83 @@ META["C14"] = {
                    "its serial results and the race detector must stay silent. Exploration of schedules the Go runtime happens to "
                    "produce under perturbation - not an enumeration of interleavings."),
     "level_note": "Trusted: Go's race detector. Limits stated in DESIGN §7: no control over the scheduler.",
+}
+
+add("C03", "TestC03", note_current=True,
+    rule=("Cases: a valid schema (one of the repo's 23 sample schemas <= 20 KB, or a gen.Shape schema incl. the javascript and "
+          "cache-sensitive flavours) with 0-4 JSON-tree mutations (delete / null / number incl. 2^31, 2^63, 9.3e18, 1e30, 1.5 / string / "
+          "[] / {} / subtree copy / duplication / type-aware replacement of min,max,rows,index,start_pos,..., type, delimiters incl. quote, "
+          "CR, LF, U+FFFD, multi-rune, xpath, regex, custom_func name and args, template names, file_format_type, encoding / template "
+          "cycle), and an input: the matching one, malformed (truncate / overwrite / insert hostile tokens), another sample's input, two "
+          "copies, binary noise, a 70 KB line, empty. Monitors: recover() around NewSchema, NewTransform, every Read, RawRecord and "
+          "Checksum; per-case watchdog (20 s wall AND >= 10 s process CPU => hang; otherwise inconclusive); a finite input of n bytes "
+          "must reach a terminal result within 2n+64 Reads. Non-trivial: NewSchema accepted a mutated schema, or the input is not the "
+          "matching one and at least one Read ran; distinct by SHA-256 of the case."),
+    quick={"checks": 5000, "shards": 8, "timeout": 900},
+    thorough={"checks": 60000, "shards": 16, "timeout": 3300},
+    floors={"accepted-mutant": 0.12, "malformed-input": 0.25, "base=sample": 0.3, "base=shape": 0.3},
+    assumptions=["scripts that loop are outside the claim: only the samples' scripts and the harness' terminating scripts occur; mutations "
+                 "never synthesise script text", "this never establishes the absence of crashing inputs"])
+
+add("C11", "TestC11",
+    rule=("Cases: an XML document (1 root, <= 45 nodes, depth <= 7, names a/b/c/r, attributes k/m/n, prefixes p/q plus a default "
+          "namespace in 60% of documents, mixed text and CDATA; no comments, PIs, XML declaration or xml: attributes), an expression "
+          "drawn from the antchfx/xpath 1.1.11 grammar (12 axes, name / * / p:* / text() / node() tests, positional, value and function "
+          "predicates, unions, filter expressions, absolute paths inside predicates; of up to 24 candidates the first that selects "
+          "something on the reference is kept), a context node (document 52%, inner element or text node 48%). One compiled expression "
+          "is evaluated by idr.QueryIter over the stream reader's tree, by antchfx/xmlquery (normalised) and by a second reference "
+          "navigator; results compared as lists of (address, kind, qualified name, string value); MatchAll/MatchAny/MatchSingle must "
+          "agree with the iterator. Non-trivial: >= 2 top-level steps, uses an attribute axis, a reverse/sibling axis or a positional "
+          "predicate, and selects >= 1 node; distinct by SHA-256 of the case."),
+    quick={"checks": 25000, "shards": 4, "timeout": 600},
+    thorough={"checks": 1000000, "shards": 16, "timeout": 3300},
+    floors={"non-empty": 0.5, "attribute-axis": 0.2, "reverse-or-sibling-axis": 0.2, "non-empty+attribute-axis": 0.1,
+            "non-empty+reverse-or-sibling-axis": 0.1, "judge=second-reference": 0.01, "prefixed-name": 0.05},
+    assumptions=["reference: antchfx/xmlquery v1.3.1 driven by the same compiled expression, with its synthetic declaration node removed and "
+                 "CharData retagged as text; where an evaluation touches one of xmlquery's navigator defects (Value() of the document node, "
+                 "NamespaceURL() of an attribute, MoveToRoot() from an attribute) a second reference navigator over the same tree judges",
+                 "MatchAll is used with DisableXPathCache (expression caching is C13's subject)"])
+
+add("C12", "TestC12", race=True, note_current=True,
+    rule=("Cases, three arms: (ops, ~84%) a serialisable list of <= 80 operations root/child/remove/probe over forests of <= 6 trees and "
+          "<= 60 nodes (CreateNode, CreateXMLNode, CreateJSONNode, AddChild, RemoveAndReleaseTree on the node itself, its first, last or "
+          "middle child, or the root), mirrored in an ordered-tree model; after every step link audit of every live tree, child order = "
+          "model order, ID/Type/Data/FormatSpecific of live nodes unchanged, released pointers unreachable, acquired nodes blank, not "
+          "live, with a fresh ID; pool probes acquire and release 2-8 nodes. (reader, ~13%) the format reader of a gen.Shape input driven "
+          "by hand: audit at delivery, after Release, after the next Read, one more Read after EOF. (conc, ~2.5%) 2/8/32 goroutines "
+          "acquiring, linking, auditing and releasing nodes: no node owned twice, IDs pairwise distinct; built with -race. Non-trivial: "
+          "(ops) a non-root removal followed by an acquisition that returns a pointer released earlier, (reader) >= 2 records and an "
+          "observed pool re-use, (conc) always; distinct by SHA-256 of the case."),
+    quick={"checks": 2500, "shards": 4, "timeout": 900, "gomaxprocs": 8},
+    thorough={"checks": 40000, "shards": 16, "timeout": 3300, "gomaxprocs": 8},
+    floors={"ops:reuse-after-nonroot-removal": 0.4, "kind=reader": 0.05, "kind=conc": 0.01},
+    assumptions=["ID uniqueness is checked within one case (the check is a pure function of the case); across cases the atomic counter is "
+                 "exercised by the concurrent arm under the race detector",
+                 "the post-EOF Read goes slightly beyond what Transform does (it never re-reads after a terminal result)"])
+
+META["C03"] = {
+    "technique": "structure-aware schema/input mutation fuzzing with recover, watchdog and read-bound monitors",
+    "design_ref": "DESIGN.md §5 C03, §7",
+    "level_text": ("Generated near-valid and adversarial schemas (JSON-tree mutations of the repo's samples and of generated schemas) crossed "
+                   "with valid, malformed, foreign and binary inputs; any panic, non-terminating call or endless result stream is a "
+                   "violation. Exploration: counts of accepted mutants and malformed inputs are the evidence; absence is not established."),
+    "level_note": ("Trusted: the watchdog's CPU accounting (getrusage) to tell a spinning call from a starved machine. Crashers found so far were "
+                   "repaired in /repo (fix: commits) and are replayed as regressions on every run; one dependency crash is a known finding."),
+}
+META["C11"] = {
+    "technique": "differential property-based testing against antchfx/xmlquery (same compiled expression) + second reference navigator",
+    "design_ref": "DESIGN.md §5 C11",
+    "level_text": ("Grammar-generated XPath expressions over generated XML documents, evaluated from the root and from inner nodes; the "
+                   "idr navigator must return the same nodes in the same order with the same string values as the reference DOM binding. "
+                   "Exploration (25k-100k cases quick, 16M thorough)."),
+    "level_note": ("Trusted: antchfx/xmlquery v1.3.1 after normalisation; its five known navigator quirks are detected per evaluation by a probe "
+                   "and such cases are judged by an own ~120-line navigator that is cross-checked against xmlquery whenever the probe is silent."),
+}
+META["C12"] = {
+    "technique": "model-based stateful property-based testing (ordered-tree model + link audit) under the race detector",
+    "design_ref": "DESIGN.md §5 C12",
+    "level_text": ("Generated create/attach/remove histories mirrored in an abstract ordered-tree model with a full link, ID and pool-aliasing "
+                   "audit after every step; the same audit on every tree the seven readers hand out; concurrent acquisitions under -race. "
+                   "Exploration."),
+    "level_note": "Trusted: pointer identity as the notion of aliasing; sync.Pool may drop nodes (fewer re-uses under -race), which only lowers the non-trivial share.",
 }
